@@ -290,7 +290,7 @@ def _seg_match(it, seg):
     parts = seg.split(' ', 1)
     kw = parts[0]
     rest = parts[1] if len(parts) > 1 else ''
-    if kw == 'impl':
+    if kw == 'impl' or kw.startswith('impl<'):
         return it.kind == 'impl' and it.name == norm(seg)
     if kw == 'macro_rules!':
         return it.kind == kw and it.name == rest
